@@ -94,8 +94,8 @@ class ExecResolve(ExecCall):
     def bind_args(self, st, fn_node, recv, args, kwargs, skip_self):
         """-> dict param -> value, using the real signature (defaults evaluated in an empty env)"""
         a = fn_node.args
-        if a.vararg or a.kwarg:
-            raise EngineError("*args/**kwargs in callee")
+        if a.vararg:
+            raise EngineError("*args in callee")
         params = [p.arg for p in a.posonlyargs + a.args]
         defaults = dict(zip(params[len(params) - len(a.defaults):], a.defaults))
         for p, d in zip(a.kwonlyargs, a.kw_defaults):
@@ -114,9 +114,16 @@ class ExecResolve(ExecCall):
         for n, v in zip(names, pos):
             bound[n] = v
         for k, v in kwargs.items():
+            if k not in names and a.kwarg:
+                continue
             if k not in names or k in bound:
                 raise EngineError(f"bad keyword argument {k}")
             bound[k] = v
+        if a.kwarg:
+            extra = {k: v for k, v in kwargs.items() if k not in names}
+            if extra:
+                raise EngineError("**kwargs with content in callee")
+            bound[a.kwarg.arg] = VDict([])
         for n in names:
             if n not in bound:
                 if n not in defaults:
